@@ -1,1 +1,67 @@
-(** C07 placeholder *)
+(** C07 — every string derivable from the PEP 508 requirement grammar is accepted and decomposed into
+    exactly the derivation's components, wherever optional white space is put.
+
+    [source w0 name w1 x w2 k w3 m w4] is the text of a derivation: blanks [w*], the name, an optional
+    extras group [x] (each identifier with blanks around it), the version part [k] (nothing, bare
+    specifier pieces, parenthesised pieces, or `@` URL with the blank [sep] after it), an optional `;`
+    marker text [m].  The side conditions ([extras_ok], [kind_ok], [marker_ok], in Text/AcceptProofs.v)
+    say that each component is itself well-formed: identifiers validate, every specifier piece is
+    accepted by the PEP 440 oracle and contains no delimiter, the URL text contains no blank and is
+    accepted by the URL type, white space separates a URL from a following `;`, and the marker text is
+    accepted by the marker parser (a black box here: its own grammar is the subject of C01/C17 and of the
+    correspondence run).  The only facts assumed of the white-space class are that it contains no name
+    character and none of the delimiters.  The right-hand side mentions no blank. *)
+From Coq Require Import List NArith.
+From PV Require Import Names.NameModel DD.DDModel Marker.Concrete Marker.Expr Text.Cursor Text.MarkerParse Text.ReqParse Text.AcceptProofs.
+Import ListNotations.
+Open Scope N_scope.
+
+Section C07.
+Variables ws alpha alnum : N -> bool.
+Variable kw : list (text * mvalue).
+Variable vparse : text -> option rawversion.
+Variables specpat specver : vop -> text -> option (vop * list N).
+Variables pv pfv : N.
+Variable specparse : text -> option spec.
+Variable url_oracle : bool -> text -> option text.
+Variable getenv : text -> option text.
+Variable project_root : text.
+Variables verbatim ext : bool.
+Hypothesis Hws_name : forall x, name_char x = true -> ws x = false.
+Hypothesis Hws_delims : forall x, In x [91;93;44;64;40;41;59;60;61;62;126;33] -> ws x = false.
+
+Notation PReq := (parse_requirement ws alpha alnum kw vparse specpat specver pv pfv specparse url_oracle getenv project_root verbatim ext).
+
+Theorem C07_accept w0 name n w1 x ids w2 k kd w3 m w4 mo wm :
+  blank ws w0 -> normalize_owned name = Some n -> blank ws w1 -> extras_ok ws x ids -> blank ws w2 ->
+  kind_ok ws specparse url_oracle getenv project_root verbatim ext k kd name w3 m w4 -> blank ws w3 ->
+  marker_ok ws alpha alnum kw vparse specpat specver pv pfv m w4 mo wm ->
+  PReq (source w0 name w1 x w2 k w3 m w4) = POk ({| r_name := n; r_extras := ids; r_kind := kd; r_marker := mo |}, wm).
+Proof.
+  exact (accept ws alpha alnum kw vparse specpat specver pv pfv specparse url_oracle getenv project_root verbatim ext Hws_name Hws_delims
+           w0 name n w1 x ids w2 k kd w3 m w4 mo wm).
+Qed.
+
+(** two layouts of the same derivation parse to the same value *)
+Theorem C07_white_space_irrelevant name m
+  w0 w1 x w2 k w3 w4 n ids kd mo wm
+  w0' w1' x' w2' k' w3' w4' n' ids' kd' mo' wm' :
+  blank ws w0 -> normalize_owned name = Some n -> blank ws w1 -> extras_ok ws x ids -> blank ws w2 ->
+  kind_ok ws specparse url_oracle getenv project_root verbatim ext k kd name w3 m w4 -> blank ws w3 ->
+  marker_ok ws alpha alnum kw vparse specpat specver pv pfv m w4 mo wm ->
+  blank ws w0' -> normalize_owned name = Some n' -> blank ws w1' -> extras_ok ws x' ids' -> blank ws w2' ->
+  kind_ok ws specparse url_oracle getenv project_root verbatim ext k' kd' name w3' m w4' -> blank ws w3' ->
+  marker_ok ws alpha alnum kw vparse specpat specver pv pfv m w4' mo' wm' ->
+  same_extras x x' -> same_kind_src k k' ->
+  PReq (source w0 name w1 x w2 k w3 m w4) = PReq (source w0' name w1' x' w2' k' w3' m w4').
+Proof.
+  exact (accept_ws_irrelevant ws alpha alnum kw vparse specpat specver pv pfv specparse url_oracle getenv project_root verbatim ext Hws_name Hws_delims
+           name m w0 w1 x w2 k w3 w4 n ids kd mo wm w0' w1' x' w2' k' w3' w4' n' ids' kd' mo' wm').
+Qed.
+End C07.
+
+Print Assumptions C07_accept.
+Print Assumptions C07_white_space_irrelevant.
+
+(** non-vacuity: the hypotheses are met by ordinary requirements (see also AcceptExample.ex_paren / ex_url) *)
+Example C07_nonvacuous := AcceptExample.ex_paren.
